@@ -144,7 +144,7 @@ func (s c53Stat) toks() []string {
 // content and metadata changes at all depths, or independent, or identical), written directly
 // into an in-memory repository; the real `restic diff --json [--metadata] a b` runs through the CLI.
 func streamC53(h *H) {
-	n := h.N(200, 9000)
+	n := h.N(200, 8000)
 	var r *a7Repo
 	for i := 0; i < n; i++ {
 		if i%40 == 0 {
